@@ -31,7 +31,7 @@ def _meta(prop: str) -> dict:
         "import json,importlib;from hv import boot;"
         f"h=importlib.import_module('hv.harness.{prop.lower()}');"
         "print(json.dumps({'rule':h.RULE,'assumptions':h.ASSUMPTIONS,"
-        "'bounds':h.BOUNDS,'exhaustive':h.EXHAUSTIVE,'technique':getattr(h,'TECHNIQUE','')}))"
+        "'bounds':h.BOUNDS,'exhaustive':h.EXHAUSTIVE,'technique':getattr(h,'TECHNIQUE',''),'declared_deviation_bound':getattr(h,'DECLARED_DEVIATION_BOUND',None)}))"
     )
     out = subprocess.run([PY, "-c", code], env=_env(), cwd=ROOT, capture_output=True, text=True)
     if out.returncode != 0:
@@ -238,8 +238,8 @@ def main() -> int:  # noqa: C901, PLR0912, PLR0915
         lines.append(f"VIOLATION property={prop} replay={path}")
 
     exhaustive = bool(meta["exhaustive"].get(tier)) and agg["capped_programs"] == 0
-    if agg["bounded_programs"]:
-        exhaustive = False
+    if agg["bounded_programs"] and not meta.get("declared_deviation_bound"):
+        exhaustive = False  # a deviation bound that the harness does not state in its RULE / BOUNDS
     coverage = {
         "states": agg["states"],
         "transitions": agg["transitions"],
@@ -254,6 +254,7 @@ def main() -> int:  # noqa: C901, PLR0912, PLR0915
         "max_choice_depth": agg["max_depth"],
         "max_deviations_in_one_execution": agg["max_deviations"],
         "programs_deviation_bounded": agg["bounded_programs"],
+        "declared_deviation_bound": (meta.get("declared_deviation_bound") or {}).get(tier),
         "programs_capped": agg["capped_programs"],
         "fixpoint_searches": {
             "programs_run_to_fixpoint": agg["fix_programs"],
